@@ -383,11 +383,11 @@ Proof.
     apply andb_prop in H as [Hall Hex].
     assert (Hhon : Forall (honest_one served) answers).
     { apply Forall_forall. intros fs Hfs. rewrite forallb_forall in Hall. specialize (Hall fs Hfs).
-      destruct fs as [|[h| | | |] [|? ?]]; try discriminate; unfold honest_one; auto.
+      destruct fs as [|[h| | | | |] [|? ?]]; try discriminate; unfold honest_one; auto.
       apply hdr_eqb_eq in Hall. subst h. auto. }
     assert (Hin : In [FHdr served] answers).
     { apply existsb_exists in Hex as (fs & Hfs & Hk). rewrite forallb_forall in Hall. specialize (Hall fs Hfs).
-      destruct fs as [|[h| | | |] [|? ?]]; try discriminate. apply hdr_eqb_eq in Hall. subst h. exact Hfs. }
+      destruct fs as [|[h| | | | |] [|? ?]]; try discriminate. apply hdr_eqb_eq in Hall. subst h. exact Hfs. }
     rewrite (perform_request_honest want served answers Hok) in Hgot; [| |exact Hhon|exact Hin].
     - destruct got as [g|]; [|discriminate]. cbn in Hgot |- *. apply hdr_eqb_eq in Hgot. subst g. apply hdr_eqb_refl.
     - destruct want as [w|]; [|exact I]. apply N.eqb_eq in Hw. exact Hw. }
